@@ -220,6 +220,10 @@ func (x *Exec) runFuncTop(st *State, args []V, entryMem map[string]*MemVer) []Ou
 	for i, p := range fn.Params {
 		st.env[p] = args[i]
 	}
+	for _, fv := range fn.FreeVars {
+		// captured variables: unconstrained cells in the heap
+		st.env[fv] = st.symbolic(fv.Type(), "free_"+fv.Name(), func(ls leafShape) *Prov { return &Prov{Space: "H", Region: "captured"} }, false)
+	}
 	if len(fn.Blocks) == 0 {
 		unsup("function %s has no body", fn)
 	}
